@@ -100,3 +100,28 @@ Section EStep.
     | o :: r => let '(l', ob) := estep l o in ob :: erun l' r
     end.
 End EStep.
+
+(* ------------------------------------------------------------------ to_native: default include dirs *)
+(* The meaning of clike.py:102-120 without indices.  For one element and what follows it:
+   (the element itself is dropped, the NEXT element is dropped as its operand). *)
+Definition isystem_flags (real_dd : list str) (each : str) (rest : list str) : bool * bool :=
+  if negb (prefixb isystem each) then (false, false)
+  else if str_eqb each isystem then                       (* bare: look at the operand *)
+    match rest with
+    | nxt :: _ => if str_mem (realpath nxt) real_dd then (true, true) else (false, false)
+    | [] => (false, false)
+    end
+  else if prefixb isystem_eq each then (str_mem (realpath (drop 9 each)) real_dd, false)
+  else (str_mem (realpath (drop 8 each)) real_dd, false).
+
+(* an element is dropped iff it is an -isystem of a default directory itself or the operand
+   of a dropped bare -isystem; every other element stays, in order *)
+Fixpoint strip_spec (real_dd : list str) (l : list str) (operand_of_dropped : bool) : list str :=
+  match l with
+  | [] => []
+  | e :: r =>
+      let '(self, nxt) := isystem_flags real_dd e r in
+      if operand_of_dropped || self then strip_spec real_dd r nxt
+      else e :: strip_spec real_dd r nxt
+  end.
+
